@@ -1,5 +1,5 @@
 (** * C04 — order lifecycle is a one-way state machine; redundant requests are no-ops *)
-From Bourse Require Import Model.Types Model.Book Proofs.Lifecycle.
+From Bourse Require Import Model.Types Model.Book Spec.RefBook Spec.Monitors Proofs.Lifecycle Proofs.Refine Proofs.Volumes Proofs.LifeRef.
 
 (** Redundant requests return the *same* state (so every observable is unchanged). *)
 Theorem c04_place_twice_noop : forall s id e,
@@ -37,6 +37,53 @@ Theorem c04_identity_preserved : forall s o s' x,
   (match x with OCreated (Created id) => id = length (b_orders s) | _ => True end).
 Proof. exact identity_preserved. Qed.
 
+(** The state machine. [life_ok trading t a b] relates what the order list holds
+    for one order before ([a]) and after ([b]) an operation executed at book time
+    [t] with the trading flag [trading]: side, trader, id and starting volume are
+    equal; the status pair is one of New->New, New->Active (limit only), New->Filled,
+    New->Cancelled (market only), New->Rejected (market only, trading off),
+    Active->Active / Filled / Cancelled, or terminal->same; a terminal order is
+    returned unchanged ([b = a]); the arrival time becomes [t] exactly when the
+    order leaves New and is otherwise unchanged; the end time becomes [t] exactly
+    when the order reaches a terminal status and is otherwise unchanged. It holds
+    for every order across every successful operation, reloads included, in every
+    state satisfying the invariant [Inv] (every reachable state: C02). *)
+Theorem c04_lifecycle_step : forall s o s' x,
+  Inv s -> op_u32 o -> step_raw s o = Ok (s', x) ->
+  forall j a, nth_error (map e_order (b_orders s)) j = Some a ->
+    exists b, nth_error (map e_order (b_orders s')) j = Some b /\ life_ok (b_trading s) (b_t s) a b.
+Proof. exact step_raw_life. Qed.
+
+(** The order a call creates starts as New with the book time as arrival time, no
+    end time and its whole volume; what the list holds after the call (the call
+    may place it at once) is one lifecycle step away from that. *)
+Theorem c04_created_order : forall s o s' id,
+  Inv s -> op_u32 o -> step_raw s o = Ok (s', OCreated (Created id)) ->
+  exists a b, fresh_order (b_t s) o id = Some a /\ id = length (map e_order (b_orders s)) /\
+              nth_error (map e_order (b_orders s')) id = Some b /\ life_ok (b_trading s) (b_t s) a b.
+Proof. exact step_raw_fresh. Qed.
+
+(** A Filled, Cancelled or Rejected order never changes again, whatever follows. *)
+Theorem c04_terminal_forever : forall ops s s' xs,
+  Inv s -> Forall op_u32 ops -> run_outs s ops = Ok (s', xs) ->
+  forall j a, nth_error (map e_order (b_orders s)) j = Some a -> terminal (o_status a) = true ->
+    nth_error (map e_order (b_orders s')) j = Some a.
+Proof. exact run_terminal_forever. Qed.
+
+Check c04_lifecycle_step : forall s o s' x,
+  Inv s -> op_u32 o -> step_raw s o = Ok (s', x) ->
+  forall j a, nth_error (map e_order (b_orders s)) j = Some a ->
+    exists b, nth_error (map e_order (b_orders s')) j = Some b /\ life_ok (b_trading s) (b_t s) a b.
+
+(** Non-vacuity: one history in which orders reach every status. *)
+Example c04_nonvacuous :
+  (do s0 <- book_new 0 1 true;
+   do (s, xs) <- run_outs s0 [OCreate Bid 3 9 (Some 90); OCreatePlace Ask 5 1 (Some 100); OSetTime 4; OCreatePlace Ask 4 2 (Some 100);
+                              OCreatePlace Bid 7 5 (Some 100); OCancel 2; OCreatePlace Bid 2 6 None; ODisable; OCreatePlace Bid 1 7 None];
+   Ok (map (fun e => (o_status (e_order e), o_arr (e_order e), o_end (e_order e))) (b_orders s)))
+  = Ok [(SNew, 0, MAXT); (SFilled, 0, 4); (SCancelled, 4, 4); (SFilled, 4, 4); (SCancelled, 4, 4); (SRejected, 4, 4)].
+Proof. vm_compute. reflexivity. Qed.
+
 Check c04_modify_inactive_noop : forall s id e np nv,
   nth_error (b_orders s) id = Some e -> o_status (e_order e) <> SActive -> modify_order s id np nv = Ok s.
 
@@ -46,3 +93,6 @@ Print Assumptions c04_modify_inactive_noop.
 Print Assumptions c04_event_noop.
 Print Assumptions c04_clock_changes_only_clock.
 Print Assumptions c04_identity_preserved.
+Print Assumptions c04_lifecycle_step.
+Print Assumptions c04_created_order.
+Print Assumptions c04_terminal_forever.
